@@ -354,12 +354,14 @@ def unpack(format: str, buffer: bytes) -> tuple[Any, ...]:
         # Depends on PIC. If PIC has only S9VP, then it's "ZONED DECIMAL": a number.
         # Otherwise, it's actually text
         if representation.zoned_decimal:
+            if any(b & 0x0F > 9 for b in buffer):
+                raise ValueError(f"invalid zoned decimal digit in {buffer!r}")
             text = "".join(str(b & 0x0F) for b in buffer)
             sign_half = (buffer[-1] & 0xF0) >> 4
             sign = -1 if (sign_half == 0x0B or sign_half == 0x0D) else +1
             base = Decimal(text)
-            scale = Decimal(10) ** (-len(representation.digit_groups[3]))
-            return (base * scale * sign,)
+            scale = len(representation.digit_groups[3])
+            return (Decimal((0 if sign > 0 else 1, base.as_tuple().digits, -scale)),)
         # Match text with a regular expression derived from the picture to see if it's valid.
         text = buffer.decode("CP037")
         logger.debug(f"estruct.unpack: {buffer!r} == {text=}")
@@ -382,11 +384,19 @@ def unpack(format: str, buffer: bytes) -> tuple[Any, ...]:
             half_bytes.append((b & 0xF0) >> 4)
             half_bytes.append((b & 0x0F))
         *digits, sign_half = half_bytes
+        if any(d > 9 for d in digits):
+            raise ValueError(f"invalid packed decimal digit in {buffer!r}")
+        declared = len(representation.digit_groups[1]) + len(
+            representation.digit_groups[3]
+        )
+        if len(digits) == declared + 1 and digits[0] != 0:
+            # An even number of digits leaves one unused half-byte; it must be zero.
+            raise ValueError(f"too many digits for {format!r} in {buffer!r}")
         # get sign and base numeric value
         sign = -1 if (sign_half == 0x0B or sign_half == 0x0D) else +1
         base = Decimal("".join(str(d) for d in digits))
-        scale = Decimal(10) ** (-len(representation.digit_groups[3]))
-        return (base * scale * sign,)
+        scale = len(representation.digit_groups[3])
+        return (Decimal((0 if sign > 0 else 1, base.as_tuple().digits, -scale)),)
 
     # elif representation.usage in ("COMPUTATIONAL-1", "COMP-1")
     #   Unpack 4 byte float
